@@ -74,7 +74,7 @@ def build(repo, spec_dir, canary=False):
     VS = 'value_spec(*self, match substring { Some(s) => Some(*s), None => None })'
     V('value', clauses=[Clause('value.spec', 'match r { Some(v) => %s == Some(v@), None => %s is None }' % (VS, VS), ['C02', 'C16'])], decreases='self')
     V('concatenate', clauses=[Clause(*c) for c in CONCAT_CLAUSES])
-    V('union', clauses=[Clause(*c) for c in UNION_CLAUSES])
+    V('union', clauses=[Clause(*c) for c in UNION_CLAUSES], blocks=[(None, 'fn_start', '        broadcast use axiom_char_count_one;')])
     V('remove_common_substring', clauses=[Clause('remove_common_substring.lang', '''match r {
             Some(c) => c@.len() > 0
                 && (substring is Prefix ==> lang(*old(a)) == cat(lit_lang(c@), lang(*final(a))) && lang(*old(b)) == cat(lit_lang(c@), lang(*final(b))))
@@ -99,9 +99,31 @@ impl<'a> Expression<'a> {""")
       extra_rules=[('R19', r'options\.sort_by_key\(\|option\| Reverse\(option\.len\(\)\)\);', 'vx_sort_by_key_permutes(&mut options);', 'sort_by_key(closure): a permutation; the key only decides the order')],
       blocks=[('vx_sort_by_key_permutes(&mut options);', 'before', '        let ghost options_before_sort = options@;'),
               (None, 'before_tail', '        proof { lemma_alt_lang_empty(); lemma_alt_lang_perm(options_before_sort, options@); }')])
-    A('new_character_class', ensures=['lang(r) == class_lang(first_char_set@.union(second_char_set@))'], why='iterator chain')
-    A('is_single_codepoint', ensures=['r ==> lang(*self) == class_lang(charset_spec(*self))'], why='string iteration; meaning of a one-char grapheme')
-    A('extract_character_set', ensures=['r@ == charset_spec(expr)'], why='string iteration')
+    b.emit("""}
+// std stand-ins for the class helpers (specified exactly)
+#[verifier::external_body] pub fn vx_btreeset_union(a: &BTreeSet<char>, b: &BTreeSet<char>) -> (r: BTreeSet<char>) ensures r@ == a@.union(b@) { unimplemented!() }
+#[verifier::external_body] pub fn vx_btreeset_one(c: char) -> (r: BTreeSet<char>) ensures r@ == set![c] { unimplemented!() }
+#[verifier::external_body] pub fn vx_first_char(s: &String) -> (r: char) requires s@.len() > 0 ensures r == s@[0] { unimplemented!() }
+impl Grapheme {""")
+    G = r'^impl Grapheme \{'
+    b.assumed_fn('grapheme.rs', 'value', within=G, ensures=['r@ == joined_chars(self.chars@)'], why='Vec<String>::join (std); uninterpreted')
+    b.verified_fn('grapheme.rs', 'maximum', within=G, clauses=[Clause('grapheme.maximum', 'r == self.max', ['C02'])], props=['C07'], fname='Grapheme::maximum')
+    b.verified_fn('grapheme.rs', 'minimum', within=G, clauses=[Clause('grapheme.minimum', 'r == self.min', ['C02'])], props=['C07'], fname='Grapheme::minimum')
+    b.emit("}\nimpl<'a> GraphemeCluster<'a> {")
+    b.assumed_fn('cluster.rs', 'char_count', within=GC, ensures=['r == cc_spec(*self, is_non_ascii_char_escaped)'],
+                 why='iter().map(closure).sum(): the number of code points of the (escaped) text; a positive count needs a non-empty first grapheme')
+    b.emit("}\nimpl<'a> Expression<'a> {")
+    V('new_character_class', clauses=[Clause('new_character_class.lang', 'lang(r) == class_lang(first_char_set@.union(second_char_set@))', ['C02', 'C16'])],
+      blocks=[(None, 'fn_start', '        broadcast use lemma_lang_class;')],
+      extra_rules=[('R19', r'\b(\w+)\.union\(&(\w+)\)\.copied\(\)\.collect\(\)', r'vx_btreeset_union(&\1, &\2)', 'BTreeSet::union(..).copied().collect()')])
+    V('is_single_codepoint', clauses=[Clause('is_single_codepoint.structure', 'r == single_cp_spec(*self)', ['C02', 'C03']),
+                                      Clause('is_single_codepoint.class_language', 'r ==> lang(*self) == class_lang(charset_spec(*self))', ['C02', 'C16'])],
+      blocks=[(None, 'fn_start', '        broadcast use {lemma_lang_class, axiom_single_code_point_literal, axiom_char_count_one};')],
+      extra_rules=[('R19', r'cluster\.graphemes\(\)\.first\(\)\.unwrap\(\)', '(&cluster.graphemes()[0])', 'slice::first().unwrap() = element 0 (index checked)')])
+    V('extract_character_set', requires=['expr is Literal ==> expr->Literal_0.graphemes@.len() > 0 && joined_chars(expr->Literal_0.graphemes@[0].chars@).len() > 0'],
+      clauses=[Clause('extract_character_set.spec', 'r@ == charset_spec(expr)', ['C02', 'C16'])],
+      extra_rules=[('R19', r'cluster\s*\.graphemes\(\)\s*\.first\(\)\s*\.unwrap\(\)\s*\.value\(\)\s*\.chars\(\)\s*\.next\(\)\s*\.unwrap\(\)', 'vx_first_char(&cluster.graphemes()[0].value())', 'first().unwrap().value().chars().next().unwrap(): first character of the first grapheme (emptiness is a precondition)'),
+                   ('R19', r'btreeset!\[single_char\]', 'vx_btreeset_one(single_char)', 'macro btreeset![x]: a set with one element')])
     b.emit("""    // Vec::drain(range) dropped at once = removal of that range (std); specified exactly
 }
 #[verifier::external_body] pub fn vx_drain_prefix(v: &mut Vec<Grapheme>, n: usize) requires n <= old(v)@.len() ensures final(v)@ == old(v)@.subrange(n as int, old(v)@.len() as int) { unimplemented!() }
